@@ -543,28 +543,10 @@ Definition server_flight (c : cfg) (s5 : tst) (sid : bytes) (suite comp sigalg v
   if f_reqcert c then (OOk, set_state s10 SERVER_EXPECT_CERTIFICATE, outm)
   else (OOk, server_expect_finished s10, outm).
 
-Definition server_handle_hello (c : cfg) (s : tst) (m : bytes) : result :=
-  with_parse s (o_parse_ch O m) (fun v =>
-  match negotiate memz (f_suites c) (ch_suites v) with None => (OAlert AD_handshake_failure, s, []) | Some suite =>
-  match negotiate memz (f_comp c) (ch_comp v) with None => (OAlert AD_handshake_failure, s, []) | Some comp =>
-  let kex_mode := negotiate_opt memz (f_kex_modes c) (ch_kex_modes v) in
-  match negotiate_opt memz (f_key_sigalgs c) (ch_sigalgs v) with None => (OAlert AD_handshake_failure, s, []) | Some sigalg =>
-  match negotiate_opt memz (f_versions c) (ch_versions v) with None => (OAlert AD_protocol_version, s, []) | Some version =>
-  let alpn_r : pres (option bytes) :=
-    match f_alpn c with
-    | Some l => match negotiate_opt memb l (ch_alpn v) with Some a => POk (Some a) | None => PAlert AD_handshake_failure end
-    | None => POk (t_alpn s)
-    end in
-  with_parse s alpn_r (fun alpn =>
-  let s1 := mkT (t_state s) (t_ks s) (t_kpsk s) (t_kproxy s) (t_resumed s) alpn (t_early s) (t_creq s) (t_peer s) (t_enc s)
-                (t_dec s) (t_next_dec s) (t_expected s) (ch_other v) (t_ext s) (t_kex_mode s) (t_keys s) in
-  let '(code, newext) := f_alpn_cb c alpn (ch_other v) in
-  if negb (code =? 0) then (OQuic code, s1, []) else
-  let s2 := mkT (t_state s1) (t_ks s1) (t_kpsk s1) (t_kproxy s1) (t_resumed s1) (t_alpn s1) (t_early s1) (t_creq s1)
-                (t_peer s1) (t_enc s1) (t_dec s1) (t_next_dec s1) (t_expected s1) (t_recv_ext s1)
-                (match newext with Some e => e | None => t_ext s1 end) (t_kex_mode s1) (t_keys s1) in
-  (* select key schedule: PSK ? *)
-  let psk_r : pres (option tst) :=            (* Some state = PSK accepted *)
+(* the PSK part of _server_handle_hello: Some state = PSK accepted (schedule keyed by the ticket's secret, binder
+   verified over the truncated hello, the rest of the hello hashed), None = full handshake *)
+Definition server_select_psk (c : cfg) (s2 : tst) (v : ch_view) (m : bytes) (suite : Z) (kex_mode : option Z)
+  : pres (option tst) :=
     match ch_psk v with
     | Some ([ident], [_]) =>
         if f_ticket_cb c && (match kex_mode with Some _ => true | None => false end) then
@@ -594,7 +576,30 @@ Definition server_handle_hello (c : cfg) (s : tst) (m : bytes) : result :=
           end
         else POk None
     | _ => POk None
+    end.
+
+Definition server_handle_hello (c : cfg) (s : tst) (m : bytes) : result :=
+  with_parse s (o_parse_ch O m) (fun v =>
+  match negotiate memz (f_suites c) (ch_suites v) with None => (OAlert AD_handshake_failure, s, []) | Some suite =>
+  match negotiate memz (f_comp c) (ch_comp v) with None => (OAlert AD_handshake_failure, s, []) | Some comp =>
+  let kex_mode := negotiate_opt memz (f_kex_modes c) (ch_kex_modes v) in
+  match negotiate_opt memz (f_key_sigalgs c) (ch_sigalgs v) with None => (OAlert AD_handshake_failure, s, []) | Some sigalg =>
+  match negotiate_opt memz (f_versions c) (ch_versions v) with None => (OAlert AD_protocol_version, s, []) | Some version =>
+  let alpn_r : pres (option bytes) :=
+    match f_alpn c with
+    | Some l => match negotiate_opt memb l (ch_alpn v) with Some a => POk (Some a) | None => PAlert AD_handshake_failure end
+    | None => POk (t_alpn s)
     end in
+  with_parse s alpn_r (fun alpn =>
+  let s1 := mkT (t_state s) (t_ks s) (t_kpsk s) (t_kproxy s) (t_resumed s) alpn (t_early s) (t_creq s) (t_peer s) (t_enc s)
+                (t_dec s) (t_next_dec s) (t_expected s) (ch_other v) (t_ext s) (t_kex_mode s) (t_keys s) in
+  let '(code, newext) := f_alpn_cb c alpn (ch_other v) in
+  if negb (code =? 0) then (OQuic code, s1, []) else
+  let s2 := mkT (t_state s1) (t_ks s1) (t_kpsk s1) (t_kproxy s1) (t_resumed s1) (t_alpn s1) (t_early s1) (t_creq s1)
+                (t_peer s1) (t_enc s1) (t_dec s1) (t_next_dec s1) (t_expected s1) (t_recv_ext s1)
+                (match newext with Some e => e | None => t_ext s1 end) (t_kex_mode s1) (t_keys s1) in
+  (* select key schedule: PSK ? *)
+  let psk_r := server_select_psk c s2 v m suite kex_mode in
   with_parse s2 psk_r (fun pskst =>
   let psk := match pskst with Some _ => true | None => false end in
   let s5 := match pskst with
